@@ -12,11 +12,27 @@ import (
 )
 
 func main() {
+	if len(os.Args) >= 2 && os.Args[1] == "--gen-tables" {
+		which := ""
+		if len(os.Args) > 2 {
+			which = os.Args[2]
+		}
+		props.GenTables(which)
+		return
+	}
 	if len(os.Args) < 3 {
 		fmt.Println("usage: verif <ID> quick|thorough | verif <ID> --replay <file>")
 		os.Exit(2)
 	}
 	id := os.Args[1]
+	if id == "--gen-tables" {
+		which := ""
+		if len(os.Args) > 2 {
+			which = os.Args[2]
+		}
+		props.GenTables(which)
+		return
+	}
 	if id == "C04" && os.Args[2] == "--worker" {
 		props.C04Worker(os.Args[3:])
 		return
